@@ -12,6 +12,7 @@ package interpreter
 //@ ensures [err] result1 == nil || isErr(result1)
 
 //@ func toInt64 [C02,C11]
+//@ reveal intOK intOf ofInt f2i64
 //@ ensures [accept] isNum(value) ==> ((result1 == nil) == intOK(num(value)))
 //@ ensures [value] isNum(value) && result1 == nil ==> result0 == intOf(num(value))
 //@ ensures [other] !isNum(value) && !isStr(value) && !isI64(value) ==> result1 != nil
@@ -68,7 +69,11 @@ package interpreter
 //@ requires [canon] canon(left) && canon(right)
 //@ requires [live] !utils.HadRuntimeError
 //@ requires [op] operator.Type == token.AND || operator.Type == token.OR || operator.Type == token.XOR || operator.Type == token.LEFT_SHIFT || operator.Type == token.RIGHT_SHIFT
-//@ ensures [spec] binOK(operator.Type, left, right, result, utils.HadRuntimeError)
+//@ ensures [spec.and] operator.Type == token.AND ==> binOK(token.AND, left, right, result, utils.HadRuntimeError)
+//@ ensures [spec.or] operator.Type == token.OR ==> binOK(token.OR, left, right, result, utils.HadRuntimeError)
+//@ ensures [spec.xor] operator.Type == token.XOR ==> binOK(token.XOR, left, right, result, utils.HadRuntimeError)
+//@ ensures [spec.shl] operator.Type == token.LEFT_SHIFT ==> binOK(token.LEFT_SHIFT, left, right, result, utils.HadRuntimeError)
+//@ ensures [spec.shr] operator.Type == token.RIGHT_SHIFT ==> binOK(token.RIGHT_SHIFT, left, right, result, utils.HadRuntimeError)
 //@ ensures [noval] utils.HadRuntimeError ==> result == nil
 //@ ensures [canon] canon(result)
 //@ ensures [errs] errProto(false, utils.HadRuntimeError, old(stderrN), stderrN, stderr, operator.Line)
